@@ -79,6 +79,7 @@ func checkC01(c *Ctx, r *Report) {
 
 		// C01.c same path rule + verb
 		checkPathRule(c, r, e.Ver, set)
+		checkPathItemOwnership(c, r, e.Ver, e.Pkg, set)
 
 		// C01.d operationId / tag / deprecation / responses
 		co := e.Pkg + ".createOperation"
@@ -185,6 +186,9 @@ func checkC01(c *Ctx, r *Report) {
 		r.add("C01.a", "guardedby", "swagtool.IsHiddenAsset:true-iff-Always", "IsHiddenAsset answers true only under Type == HideMethodAlways", []string{fi.Key}, sites, viol)
 	}
 
+	// C01.c the normaliser collapses slash runs of any length
+	ruleSlashCollapse(c, r, "C01.c", "common.RemoveDuplicateSlash", "RemoveDuplicateSlash collapses runs of '/' of any length (so 'controller-route + method-route normalises to that path' is a function of the concatenation, independent of how many slashes meet)")
+
 	// C01.e routes never leak between controllers
 	checkNoLeak(c, r)
 
@@ -218,6 +222,104 @@ func checkC01(c *Ctx, r *Report) {
 			}
 		}, true,
 		"every receiver for which VisitMethod yields metadata is appended to the controller")
+}
+
+// checkPathItemOwnership (C01.b): path items of the DOCUMENT are looked up and written
+// only inside setNewRouteOperation, and the lookup and the insertion use the same
+// container (the document's path map), so operations of different controllers that
+// normalise to the same path are merged, never overwritten.
+func checkPathItemOwnership(c *Ctx, r *Report, ver, pkgRel, setFn string) {
+	w := c.W
+	var sites []string
+	viol := ""
+	nLookup, nInsert := 0, 0
+	isPathContainer := func(recv ssa.Value) bool {
+		a := sliceOf(recv)
+		if ver == "3.0" {
+			return a.hasFieldNamed("Paths")
+		}
+		return a.hasFieldNamed("PathItems") && a.hasFieldNamed("Paths")
+	}
+	for _, fn := range w.SSAFuncs {
+		if fn.Pkg == nil || short(fn.Pkg.Pkg.Path()) != pkgRel {
+			continue
+		}
+		for _, b := range fn.Blocks {
+			for _, ins := range b.Instrs {
+				cl, ok := ins.(ssa.CallInstruction)
+				if !ok {
+					continue
+				}
+				name := calleeName(cl)
+				var kind string
+				switch {
+				case ver == "3.0" && (strings.HasSuffix(name, "openapi3.Paths).Set")):
+					kind = "insert"
+				case ver == "3.0" && (strings.HasSuffix(name, "openapi3.Paths).Find") || strings.HasSuffix(name, "openapi3.Paths).Value")):
+					kind = "lookup"
+				case ver == "3.0" && strings.HasSuffix(name, "openapi3.PathItem).SetOperation"):
+					kind = "op"
+				case ver == "3.1" && strings.Contains(name, "OrderedMap[") && strings.HasSuffix(name, ").Set"):
+					kind = "insert"
+				case ver == "3.1" && strings.Contains(name, "OrderedMap[") && (strings.HasSuffix(name, ").Get") || strings.HasSuffix(name, ").GetOrZero") || strings.HasSuffix(name, ").Load")):
+					kind = "lookup"
+				default:
+					continue
+				}
+				args := cl.Common().Args
+				if len(args) == 0 {
+					continue
+				}
+				isPathMap := false
+				if ver == "3.1" {
+					// only maps of *v3.PathItem values are of interest
+					if strings.Contains(args[0].Type().String(), "v3.PathItem]") {
+						isPathMap = true
+					}
+				} else {
+					isPathMap = true
+				}
+				if !isPathMap {
+					continue
+				}
+				p := w.pos(cl.Pos())
+				sites = append(sites, p)
+				if fnShort(fn) != setFn {
+					viol = fmt.Sprintf("%s: path items are %s in %s; only %s may touch them (a second writer can overwrite or invent operations)", p, map[string]string{"insert": "inserted", "lookup": "looked up", "op": "given operations"}[kind], fnShort(fn), setFn)
+					continue
+				}
+				if kind == "op" {
+					continue
+				}
+				if !isPathContainer(args[0]) {
+					viol = fmt.Sprintf("%s: the %s does not operate on the document's own path map (operations of other controllers on the same path would be lost)", p, kind)
+				}
+				if kind == "lookup" {
+					nLookup++
+				} else {
+					nInsert++
+				}
+			}
+		}
+	}
+	if nLookup != 1 || nInsert != 1 {
+		viol = fmt.Sprintf("expected exactly one lookup and one insertion of the document's path items in %s, found %d/%d", setFn, nLookup, nInsert)
+	}
+	if ver == "3.1" {
+		pi := w.extType(pkgV3, "PathItem")
+		for _, verb := range []string{"Get", "Post", "Put", "Delete", "Patch", "Head", "Options", "Trace"} {
+			if fld := fieldOf(pi, verb); fld != nil {
+				for _, st := range w.fieldStores(fld) {
+					sites = append(sites, w.pos(st.Pos()))
+					if fnShort(st.Parent()) != setFn {
+						viol = fmt.Sprintf("%s: PathItem.%s is written outside %s", w.pos(st.Pos()), verb, setFn)
+					}
+				}
+			}
+		}
+	}
+	o := r.add("C01.b", "whowrites", setFn+":path-item-ownership", ver+": the document's path items are looked up and written only in setNewRouteOperation, on the document's own map", []string{setFn}, sites, viol)
+	o.NonTrivial = true
 }
 
 func hasConst(a *sliceAtoms, c string) bool {
